@@ -3803,7 +3803,8 @@ func ruleRNG4(c *Ctx) []Ob {
 				nextSinceSeek++
 				return []aval{}, true
 			case c.isInvokeOf(call, "store", "Tx", "Cursor"):
-				return []aval{{}, nilErr}, true
+				// some non-nil cursor (a known value, so that helpers taking it are evaluated)
+				return []aval{{K: aConcrete, Tag: call.Common().Signature().Results().At(0).Type()}, nilErr}, true
 			}
 			if isFuncParamCall(call) {
 				return []aval{{K: aConst, C: constant.MakeString(fmt.Sprintf("EMIT:%d", nextSinceSeek))}}, true
@@ -3877,14 +3878,16 @@ func ruleRNG4(c *Ctx) []Ob {
 				}
 				// key builders and splitters: bytes in, bytes out - their results are opaque
 				if c.IsLib(g) && g.Signature.Results().Len() >= 1 {
-					allBytes := true
+					allBytes, someBytes := true, false
 					for i := 0; i < g.Signature.Results().Len(); i++ {
 						t := g.Signature.Results().At(i).Type()
-						if !isStringOrBytes(t) && !isErrorType(t) {
+						if isStringOrBytes(t) {
+							someBytes = true
+						} else if !isErrorType(t) {
 							allBytes = false
 						}
 					}
-					if allBytes {
+					if allBytes && someBytes {
 						out := make([]aval, g.Signature.Results().Len())
 						for i := range out {
 							if isErrorType(g.Signature.Results().At(i).Type()) {
@@ -3931,9 +3934,12 @@ func ruleRNG4(c *Ctx) []Ob {
 				wantAt = 0
 			}
 			if firstAt != wantAt {
-				if tcase.emit {
+				switch {
+				case te.unevaluated > 0:
+					undec = tcase.what + ": a helper on the way was not followed by the evaluator"
+				case tcase.emit:
 					bad = tcase.what + ": the entry equal to the included near bound is skipped"
-				} else {
+				default:
 					bad = tcase.what + ": the entry equal to the excluded near bound is handed to the consumer"
 				}
 			}
@@ -3946,6 +3952,8 @@ func ruleRNG4(c *Ctx) []Ob {
 			undec = tcase.what + ": no outcome"
 		case panicked != "":
 			undec = tcase.what + ": " + panicked
+		case emitted != tcase.emit && te.unevaluated > 0:
+			undec = tcase.what + ": a helper on the way was not followed by the evaluator"
 		case emitted != tcase.emit:
 			if tcase.emit {
 				bad = tcase.what + ": the entry lies inside the bound but is not handed to the consumer"
